@@ -1718,3 +1718,49 @@ def profile_c03(ctx, pf):
 
 
 extra_c03 = _chain(extra_c03, profile_c03)
+
+
+# ------------------------------------------------------------------ session 3: location variables
+def locations_c10(ctx, pf):
+    """cellLocations / faceLocations: the coordinate of every cell centre / face centre, broadcast over the grid (values, not only purity)"""
+    n = 0
+    rng = random.Random(f"c10loc-{ctx.seed}")
+    for cname in gen.CLASSES:
+        d = gen.DIM[cname]
+        fs = gen.mesh_case(rng, cname, nmax=4, nmin=1)
+        mesh = gen.build_mesh(pf, cname, fs)
+        dims = [int(k) for k in mesh.dims]
+        L = {"cls": cname, "faces": [list(map(float, f)) for f in fs]}
+        cen = [np.asarray(c, dtype=float) for c in (mesh.cellcenters._x, mesh.cellcenters._y, mesh.cellcenters._z)[:d]]
+        fac = [np.asarray(c, dtype=float) for c in (mesh.facecenters._x, mesh.facecenters._y, mesh.facecenters._z)[:d]]
+        def along(v, b, shape):
+            sh = [1] * d; sh[b] = -1
+            return np.broadcast_to(np.reshape(v, sh), shape)
+        try:
+            cl = pf.cellLocations(mesh)
+            cl = cl if isinstance(cl, tuple) else (cl,)
+            n += 1
+            if len(cl) != d:
+                ctx.violation(f"c10:{cname}:cellLocations", f"{cname}: cellLocations returns {len(cl)} variables for a {d}-dimensional grid", L)
+            for b, v in enumerate(cl[:d]):
+                want = along(cen[b], b, tuple(dims))
+                got = np.asarray(v.value, dtype=float)
+                if got.shape != want.shape or relsc(got, want) > 1e-14:
+                    ctx.violation(f"c10:{cname}:cellLocations", f"{cname}: cellLocations component {b} is not the coordinate of the cell centres along axis {b}", dict(L, axis=b)); break
+            fl = pf.faceLocations(mesh)
+            fl = fl if isinstance(fl, tuple) else (fl,)
+            n += 1
+            for a, F in enumerate(fl[:d]):
+                shp = tuple(dims[b] + (1 if b == a else 0) for b in range(d))
+                comps = [F._xvalue, F._yvalue, F._zvalue][:d]
+                for b in range(d):
+                    want = along(fac[a] if b == a else cen[b], b, shp)
+                    got = np.asarray(comps[b], dtype=float)
+                    if got.shape != want.shape or relsc(got, want) > 1e-14:
+                        ctx.violation(f"c10:{cname}:faceLocations", f"{cname}: faceLocations: coordinate {b} of the faces normal to axis {a} is wrong (shape {got.shape}, expected {want.shape})", dict(L, normal=a, coordinate=b)); break
+        except Exception as ex:
+            ctx.violation(f"c10:{cname}:locations-raise", f"{cname}: cellLocations / faceLocations raised {type(ex).__name__}: {ex}", L)
+    return n
+
+
+extra_c10 = _chain(extra_c10, locations_c10)
